@@ -30,6 +30,7 @@ LABELS = [n + 'Err' + a for n in ('Resolve', 'Assign') for a in ('Position', 'Of
 PARSEERR = ['ParseErrOffset', 'ParseErrPointerOffset', 'ParseErrSourceOffset', 'ParseErrCompleteOffset', 'ParseErrInvalidEncodingLen', 'ParseErrLabels']
 CMP = [sp['id'] for sp in rs2lean.FUNCS if sp.get('cmpimpl')]
 DOORS = ['Validate', 'PointerParse', 'PointerBufParse', 'BufTryFromString', 'BufTryFromStr', 'BufFromStr']
+ITER = ['PointerTokens', 'TokensNext', 'ComponentsFrom', 'ComponentsNext']
 BUILD = ['GetUsize', 'First', 'Last', 'WithTrailingToken', 'WithLeadingToken', 'Concat']
 BUF = ['FromTokens', 'PushFront', 'PushBack', 'PopBack', 'Append', 'Clear', 'PopFront', 'Replace']
 def _u(*ls):
@@ -47,12 +48,12 @@ PROP_FUNCS = {
     'C08': _u(WALKS, DELETE, ['IndexFromStr', 'ForLen'], TOIDX), 'C10': _u(WALKS, DELETE, EXPAND, ASSIGN, ['IndexFromStr', 'ForLen'], TOIDX),
     'C06': _u(EXPAND, ASSIGN, ['IndexFromStr', 'ForLenIncl'], TOIDX), 'C07': _u(EXPAND, ASSIGN, ['IndexFromStr', 'ForLenIncl'], TOIDX),
     'C17': CMP,
-    'C03': TOKEN, 'C04': _u(ACCESS, ['FromTokens'], BUILD, ['PushBack', 'PushFront', 'Append']), 'C12': _u(SLICE, SPLITS, ['GetUsize']), 'C13': _u(RELS, ['Append', 'Concat']), 'C16': INDEX,
+    'C03': TOKEN, 'C04': _u(ACCESS, ['FromTokens'], BUILD, ['PushBack', 'PushFront', 'Append'], ITER), 'C12': _u(SLICE, SPLITS, ['GetUsize']), 'C13': _u(RELS, ['Append', 'Concat']), 'C16': INDEX,
     'C19': _u(TOKEN, SLICE, SPLITS, RELS, ACCESS),
 }
 TRANSPORT_MEMBERS = {'TransportValidate': ['ValidateBytes'], 'TransportToken': TOKEN, 'TransportSlice': SLICE, 'TransportIndex': INDEX,
                      'TransportPointer': POINTER, 'TransportResolve': WALKS, 'TransportBuf': BUF, 'TransportDelete': ['DeleteJson', 'DeleteToml'], 'TransportExpand': ['ExpandJson', 'ExpandToml'],
-                     'TransportAssign': [x for x in ASSIGN if x.startswith('Assign')], 'TransportBuild': BUILD, 'TransportDoors': DOORS, 'TransportCmp': CMP, 'TransportLabels': LABELS, 'TransportParseErr': PARSEERR}
+                     'TransportAssign': [x for x in ASSIGN if x.startswith('Assign')], 'TransportBuild': BUILD, 'TransportDoors': DOORS, 'TransportIter': ITER, 'TransportCmp': CMP, 'TransportLabels': LABELS, 'TransportParseErr': PARSEERR}
 TIE_THEOREMS = {
     'ValidateBytes': ['Jp.Tie.validate_bytes_eq', 'Jp.Tie.validate_bytes_nil'], 'FromEncoded': ['Jp.Tie.from_encoded_eq'],
     'TokenNew': ['Jp.Tie.new_eq'], 'Decoded': ['Jp.Tie.decoded_eq'], 'ForLen': ['Jp.Tie.for_len_eq'],
@@ -88,11 +89,14 @@ TIE_THEOREMS = {
     'WithTrailingToken': ['Jp.Tie.with_trailing_token_eq'], 'WithLeadingToken': ['Jp.Tie.with_leading_token_eq'], 'Concat': ['Jp.Tie.concat_eq'],
     'Validate': ['Jp.Tie.validate_eq'], 'PointerParse': ['Jp.Tie.pointer_parse_eq'], 'PointerBufParse': ['Jp.Tie.pointer_buf_parse_eq'],
     'BufTryFromString': ['Jp.Tie.buf_try_from_string_eq'], 'BufTryFromStr': ['Jp.Tie.buf_try_from_str_eq'], 'BufFromStr': ['Jp.Tie.buf_from_str_eq'],
+    'PointerTokens': ['Jp.Tie.pointer_tokens_iter_eq'], 'TokensNext': ['Jp.Tie.tokens_next_eq'], 'ComponentsFrom': ['Jp.Tie.components_from_eq'],
+    'ComponentsNext': ['Jp.Tie.components_next_eq'],
     'ParseIndex': ['Jp.Tie.parse_index_eq'], 'ResolveJson': ['Jp.Tie.resolve_json_eq', 'Jp.Tie.resolve_json_loop'],
     'ResolveMutJson': ['Jp.Tie.resolve_mut_json_eq'], 'ResolveToml': ['Jp.Tie.resolve_toml_eq'], 'ResolveMutToml': ['Jp.Tie.resolve_mut_toml_eq'],
 }
 for _i in CMP: TIE_THEOREMS[_i] = [f'Jp.Tie.cmp_{_i}_eq']
 TRANSPORT_THEOREMS = {
+    'TransportIter': ['gen_tokens_iter_eq', 'gen_components_iter_eq', 'gen_tokens_iter_fused'],
     'TransportDoors': ['gen_parse_eq_spec', 'gen_parse_ok_iff', 'gen_doors_agree', 'gen_parse_no_panic'],
     'TransportCmp': ['gen_eq_impls_are_text_eq', 'gen_ord_impls_are_lexCmp', 'gen_eq_iff_ord_eq'],
     'TransportValidate': ['gen_validate_ok_iff', 'gen_validate_no_panic', 'gen_no_leading_slash_iff'],
